@@ -29,7 +29,11 @@ main(int argc, char *argv[])
 		return 2;
 	if (strcmp(argv[1], "rate") == 0) {
 		int max = argc > 2 ? atoi(argv[2]) : 100;
-		int big[] = { 1000, 4096, 65535, 65536, 99999, 1000000, 16777216, 16777217, 33554433, 2147483647 };
+		/* 100, 200, 1000: 99/100, 199/200, 999/1000 lie above the quick grid; 65536: n/65536 (the end-to-end lane
+		 * stops at 1000 suites, the list model is quadratic in them); 21474836 / 21474837: (total - fail) * 100
+		 * crosses INT_MAX between them when it is computed in int */
+		int big[] = { 100, 200, 1000, 4096, 65535, 65536, 99999, 1000000, 16777216, 16777217, 21474836, 21474837,
+		    33554433, 2147483647 };
 		int t, f;
 		size_t k;
 
@@ -42,7 +46,8 @@ main(int argc, char *argv[])
 			}
 		}
 		for (k = 0; k < sizeof(big) / sizeof(big[0]); k++) {
-			int fs[] = { 0, 1, 2, big[k] / 3, big[k] / 2, big[k] - 1, big[k] };
+			int fs[] = { 0, 1, 2, big[k] / 100, big[k] / 100 + 1, big[k] / 3, big[k] / 3 + 1, big[k] / 2,
+			    big[k] - big[k] / 100, big[k] - 2, big[k] - 1, big[k] };
 			size_t j;
 
 			for (j = 0; j < sizeof(fs) / sizeof(fs[0]); j++) {
@@ -64,6 +69,23 @@ main(int argc, char *argv[])
 				    d == NONE ? "N" : d == FASTER ? "F" : "S");
 			}
 		}
+		{
+			/* non-negative only (a - b cannot overflow): 2^31 and 2^32 apart, 600 / 601 beyond */
+			const int64_t p31 = 2147483648ll, p32 = 4294967296ll, mx = 9223372036854775807ll;
+			int64_t w[] = { 0, 5, 600, 601, 605, 606, p31 - 1, p31, p31 + 5, p31 + 600, p31 + 601, p31 + 605,
+			    p31 + 606, p32 - 1, p32, p32 + 5, p32 + 600, p32 + 601, p32 + 605, p32 + 606, 2 * p32, 2 * p32 + 5,
+			    mx - 601, mx - 600, mx - 1, mx };
+			size_t m = sizeof(w) / sizeof(w[0]);
+
+			for (i = 0; i < m; i++) {
+				for (j = 0; j < m; j++) {
+					enum duration_delta d = duration_delta(w[i], w[j]);
+
+					printf("d %lld %lld %s\n", (long long)w[i], (long long)w[j],
+					    d == NONE ? "N" : d == FASTER ? "F" : "S");
+				}
+			}
+		}
 	} else if (strcmp(argv[1], "status") == 0) {
 		int i;
 
@@ -76,7 +98,11 @@ main(int argc, char *argv[])
 		}
 	} else if (strcmp(argv[1], "duration") == 0) {
 		int64_t v[] = { 0, 1, 59, 60, 61, 3599, 3600, 3601, 3660, 86399, 86400, 360000, -1, -60, -3600, -3661,
-		    7730941132800ll, 7730941136459ll, 9223372036854775807ll };
+		    7730941132800ll, 7730941136459ll, 9223372036854775807ll,
+		    /* 2^31, 2^32 seconds; 3600 * 2^31 -+ 1 (hours reach INT_MAX + 1), 3600 * 2^32 (hours wrap to 0 in int),
+		     * 60 * 2^32 */
+		    2147483647ll, 2147483648ll, 4294967295ll, 4294967296ll, 4294967296ll + 3661, 7730941132799ll,
+		    7730941132800ll + 60, 15461882265600ll, 15461882265600ll + 3599, 257698037760ll };
 		size_t i;
 
 		for (i = 0; i < sizeof(v) / sizeof(v[0]); i++) {
@@ -86,13 +112,28 @@ main(int argc, char *argv[])
 			printf("u %lld %s\n", (long long)v[i], render_duration(&ri, &s));
 		}
 	} else if (strcmp(argv[1], "cmp") == 0) {
-		int64_t t[] = { -5, 0, 1, 2, 1000000000000ll };
-		const char *names[] = { "a", "a/b", "a/c", "b", "../a", "", "a/b/c", "\xc3\xa9", "A" };
+		/* 2^31 and 2^32 apart (equal, or in the other order, once narrowed to 32 bits), the ends of int64_t */
+		int64_t t[] = { -5, 0, 1, 2, 1000000000000ll, 2147483647ll, 2147483648ll, 2147483649ll, 4294967295ll,
+		    4294967296ll, 4294967297ll, 4294967298ll, 8589934593ll, -2147483648ll, -4294967295ll,
+		    9223372036854775807ll, (-9223372036854775807ll - 1) };
+		size_t nt = sizeof(t) / sizeof(t[0]);
+		/* prefixes of each other, case, byte order ('-' < '.' < '/' < '0', 'Z' < 'a', 0x7f < 0x80 as unsigned
+		 * char), and two pairs that agree in their first 255 / 256 bytes */
+		static char l255a[300], l255b[300], l256a[300], l256b[300];
+		const char *names[] = { "a", "a/b", "a/c", "b", "../a", "", "a/b/c", "\xc3\xa9", "A",
+		    "a/b-c", "a-b/c", "a/b.c", "a/b0", "a/b ", "a/", "A/b", "a/B", "Z/z", "a/\x7f", "a/\x80", "a/\xff",
+		    "../", "..", l255a, l255b, l256a, l256b };
+		size_t nn = sizeof(names) / sizeof(names[0]);
 		int fails[] = { 0, 1, 2 };
 		size_t i, j, k, l;
 
-		for (i = 0; i < 5; i++) {
-			for (j = 0; j < 5; j++) {
+		memset(l255a, 'n', 256); memset(l255b, 'n', 256); l255a[1] = l255b[1] = '/';
+		l255a[255] = 'x'; l255b[255] = 'y';
+		memset(l256a, 'n', 257); memset(l256b, 'n', 257); l256a[1] = l256b[1] = '/';
+		l256a[256] = 'x'; l256b[256] = 'y';
+
+		for (i = 0; i < nt; i++) {
+			for (j = 0; j < nt; j++) {
 				struct regress_invocation x = { .time = t[i] }, y = { .time = t[j] };
 				struct run rx = { .time = t[i] }, ry = { .time = t[j] };
 
@@ -104,8 +145,8 @@ main(int argc, char *argv[])
 		}
 		for (i = 0; i < 3; i++) {
 			for (j = 0; j < 3; j++) {
-				for (k = 0; k < 9; k++) {
-					for (l = 0; l < 9; l++) {
+				for (k = 0; k < nn; k++) {
+					for (l = 0; l < nn; l++) {
 						struct suite x = { .name = names[k], .fail = fails[i] };
 						struct suite y = { .name = names[l], .fail = fails[j] };
 						struct suite *px = &x, *py = &y;
